@@ -29,7 +29,7 @@ ASSUMPTIONS = ['inputs the real parser rejects are skipped; the reference re-rea
                'statement lists may be removed by semicolon dropping']
 BUDGET_S = {'quick': 70, 'thorough': 900}
 REQUIRED_HITS = ['identifier_boundary', 'minify_print', 'reparse', 'reference_reread', 'space_minimum_decision', 'semicolon_dropped']
-FLOOR = {'quick': 3000, 'thorough': 60000}
+FLOOR = {'quick': 3000, 'thorough': 40000}
 
 
 def judge(ci, out, c2, err2, ref_c, ref_err, es5):
